@@ -55,9 +55,12 @@ theorem client_never_replies (c : Core) (hc : c.serverMode = false) (env : Env) 
   have h1 : (maybeAddNodeFromRequest c src version ro req env.now) = c := by
     simp [maybeAddNodeFromRequest, hc]
   have h2 := verifySelfPing_serverMode c src req env.now
-  unfold handleRequest serveRequest
-  rw [h1]
-  refine ⟨?_, ?_⟩ <;> simp [h2, hc]
+  unfold handleRequest
+  split
+  · exact ⟨rfl, hc⟩
+  · unfold serveRequest
+    rw [h1]
+    refine ⟨?_, ?_⟩ <;> simp [h2, hc]
 
 /-- the stored data of a client never changes on a request -/
 theorem client_never_stores (c : Core) (hc : c.serverMode = false) (env : Env) (src : Addr) (ro : Bool)
@@ -69,10 +72,13 @@ theorem client_never_stores (c : Core) (hc : c.serverMode = false) (env : Env) (
     simp [maybeAddNodeFromRequest, hc]
   have h2 := verifySelfPing_serverMode c src req env.now
   have h3 := verifySelfPing_stores c src req env.now
-  unfold handleRequest serveRequest
-  rw [h1]
-  simp only [h2, hc, Bool.false_eq_true, ite_false]
-  exact h3
+  unfold handleRequest
+  split
+  · exact ⟨rfl, rfl, rfl, rfl⟩
+  · unfold serveRequest
+    rw [h1]
+    simp only [h2, hc, Bool.false_eq_true, ite_false]
+    exact h3
 
 /-! ### read-only requesters and read-only repliers -/
 
@@ -737,10 +743,13 @@ theorem handleRequest_serverMode (c : Core) (env : Env) (src : Addr) (ro : Bool)
       · rfl
     · rfl
   have h2 := verifySelfPing_serverMode (maybeAddNodeFromRequest c src version ro req env.now) src req env.now
-  unfold handleRequest serveRequest
+  unfold handleRequest
   split
-  · exact h2.trans h1
-  · exact h2.trans h1
+  · rfl
+  · unfold serveRequest
+    split
+    · exact h2.trans h1
+    · exact h2.trans h1
 
 theorem handleIncoming_mode2 (a : Actor) (env : Env) (handed : Option (Message × Addr)) :
     mode2 (a.handleIncoming env handed).1 = mode2 a := by
